@@ -108,3 +108,261 @@ Proof.
   destruct t; simpl in Hf; repeat (destruct Hf as [Hf|Hf]; [subst f|]); try destruct Hf;
     (split; [simpl; lia|]); repeat constructor; simpl; nia.
 Qed.
+
+(* ------------------------------------------------------------------ oriented manifold *)
+Lemma cell_edges_inj nv t i j i' j' e : 2 <= nv -> 0 <= j < nv - 1 -> 0 <= j' < nv - 1 -> 0 <= i -> 0 <= i' ->
+  In e (dedges (gcell nv t i j)) -> In e (dedges (gcell nv t i' j')) -> i = i' /\ j = j'.
+Proof.
+  intros Hv Hj Hj' Hi Hi' H H'.
+  unfold gcell, gtri1, gtri2, gquad, gv in *.
+  destruct t; simpl in H, H'; split_or H; subst e; split_or H'; injection H'; intros;
+  try lia; (assert (i = i') by nia; subst; lia).
+Qed.
+
+Lemma cell_edges_NoDup nv t i j : 2 <= nv -> NoDup (dedges (gcell nv t i j)).
+Proof.
+  intros Hv. unfold gcell, gtri1, gtri2, gquad, gv.
+  destruct t; simpl; repeat constructor; simpl; intros H; split_or H; injection H; intros; lia.
+Qed.
+
+Lemma grid_dedges_eq nu nv t u : 2 <= nu -> 2 <= nv ->
+  dedges (unit_grid_faces nu nv t u) =
+  flat_map (fun i => flat_map (fun j => dedges (gcell nv t i j)) (zrange (nv - 1))) (zrange (nu - 1)).
+Proof.
+  intros. rewrite grid_faces_eq by lia. rewrite dedges_flat_map.
+  apply flat_map_ext_in. intros. apply dedges_flat_map.
+Qed.
+
+Lemma grid_dedge_In nu nv t u e : 2 <= nu -> 2 <= nv ->
+  In e (dedges (unit_grid_faces nu nv t u)) <->
+  exists i j, 0 <= i < nu - 1 /\ 0 <= j < nv - 1 /\ In e (dedges (gcell nv t i j)).
+Proof.
+  intros Hu Hv. rewrite grid_dedges_eq by lia. rewrite in_flat_map. split.
+  - intros [i [Hi H]]. apply In_zrange in Hi. apply in_flat_map in H as [j [Hj H]]. apply In_zrange in Hj.
+    exists i, j. auto.
+  - intros [i [j [Hi [Hj H]]]]. exists i. split; [apply In_zrange; lia|].
+    apply in_flat_map. exists j. split; [apply In_zrange; lia | exact H].
+Qed.
+
+Lemma grid_oriented_manifold nu nv t u : 2 <= nu -> 2 <= nv ->
+  oriented_manifold (unit_grid_faces nu nv t u).
+Proof.
+  intros Hu Hv. unfold oriented_manifold. rewrite grid_dedges_eq by lia.
+  apply NoDup_flat_map; [apply NoDup_zrange | |].
+  - intros i Hi. apply In_zrange in Hi. apply NoDup_flat_map; [apply NoDup_zrange | |].
+    + intros j _. apply cell_edges_NoDup. lia.
+    + intros j j' e Hj Hj' Hne H H'. apply In_zrange in Hj, Hj'.
+      destruct (cell_edges_inj nv t i j i j' e); auto; lia.
+  - intros i i' e Hi Hi' Hne H H'. apply In_zrange in Hi, Hi'.
+    apply in_flat_map in H as [j [Hj H]]. apply in_flat_map in H' as [j' [Hj' H']].
+    apply In_zrange in Hj, Hj'.
+    destruct (cell_edges_inj nv t i j i' j' e); auto; lia.
+Qed.
+
+(* ------------------------------------------------------------------ connected: every vertex > 0 has a smaller neighbour *)
+Lemma grid_connected nu nv t u : 2 <= nu -> 2 <= nv ->
+  connected (unit_grid_nverts nu nv t u) (unit_grid_faces nu nv t u).
+Proof.
+  intros Hu Hv. rewrite grid_nverts by lia. apply connected_by_descent. intros v Hv'.
+  set (i := v / nv). set (j := v mod nv).
+  assert (Hij : v = i * nv + j /\ 0 <= j < nv /\ 0 <= i < nu).
+  { subst i j. pose proof (Z.div_mod v nv ltac:(lia)). pose proof (Z.mod_pos_bound v nv ltac:(lia)).
+    split; [lia|]. split; [lia|]. split; [apply Z.div_pos; lia | apply Z.div_lt_upper_bound; lia]. }
+  destruct Hij as [Ev [Hj Hi]]. clearbody i j.
+  unfold adjacent.
+  destruct (Z_lt_le_dec 0 j) as [Lj|Lj].
+  - (* left neighbour v-1, along a row edge *)
+    exists (v - 1). split; [lia|].
+    destruct (Z_lt_le_dec i (nu - 1)) as [Li|Li].
+    + left. apply grid_dedge_In; try lia. exists i, (j - 1). split; [lia|]. split; [lia|].
+      unfold gcell, gtri1, gtri2, gquad, gv. destruct t; simpl; left; f_equal; lia.
+    + right. assert (i = nu - 1) by lia. subst i.
+      apply grid_dedge_In; try lia. exists (nu - 2), (j - 1). split; [lia|]. split; [lia|].
+      unfold gcell, gtri1, gtri2, gquad, gv. destruct t; simpl.
+      * right. right. right. right. left. f_equal; lia.
+      * right. right. left. f_equal; lia.
+  - (* j = 0, i > 0: upper neighbour v - nv, along a column edge *)
+    assert (j = 0) by lia. subst j. assert (0 < i) by nia.
+    exists (v - nv). split; [nia|]. right.
+    apply grid_dedge_In; try lia. exists (i - 1), 0. split; [lia|]. split; [lia|].
+    unfold gcell, gtri1, gtri2, gquad, gv. destruct t; simpl.
+    + right. right. left. f_equal; lia.
+    + right. right. right. left. f_equal; lia.
+Qed.
+
+(* ------------------------------------------------------------------ the border is one cycle: the perimeter *)
+Definition gpos (nu nv t : Z) : Z :=
+  if t <? nv - 1 then gv nv 0 t
+  else if t <? (nv - 1) + (nu - 1) then gv nv (t - (nv - 1)) (nv - 1)
+  else if t <? 2 * (nv - 1) + (nu - 1) then gv nv (nu - 1) ((nv - 1) - (t - (nv - 1) - (nu - 1)))
+  else gv nv ((nu - 1) - (t - 2 * (nv - 1) - (nu - 1))) 0.
+Definition gper (nu nv : Z) : Z := 2 * (nu - 1) + 2 * (nv - 1).
+
+(* the four kinds of perimeter edges *)
+Inductive perim (nu nv : Z) : Z * Z -> Prop :=
+| per_bottom : forall s, 0 <= s < nv - 1 -> perim nu nv (gv nv 0 s, gv nv 0 (s + 1))
+| per_right : forall s, 0 <= s < nu - 1 -> perim nu nv (gv nv s (nv - 1), gv nv (s + 1) (nv - 1))
+| per_top : forall s, 0 <= s < nv - 1 -> perim nu nv (gv nv (nu - 1) (s + 1), gv nv (nu - 1) s)
+| per_left : forall s, 0 <= s < nu - 1 -> perim nu nv (gv nv (s + 1) 0, gv nv s 0).
+
+Lemma gpos_edge nu nv t : 2 <= nu -> 2 <= nv -> 0 <= t < gper nu nv ->
+  perim nu nv (gpos nu nv t, gpos nu nv ((t + 1) mod gper nu nv)).
+Proof.
+  intros Hu Hv Ht. unfold gper in *.
+  destruct (mod_succ_cases t (2 * (nu - 1) + 2 * (nv - 1)) Ht) as [[E L]|[E L]]; rewrite E; unfold gpos.
+  - destruct (t <? nv - 1) eqn:C1.
+    + destruct (t + 1 <? nv - 1) eqn:C2.
+      * apply per_bottom. lia.
+      * replace (t + 1 <? nv - 1 + (nu - 1)) with true by lia.
+        replace (gv nv (t + 1 - (nv - 1)) (nv - 1)) with (gv nv 0 (t + 1)) by (unfold gv; nia).
+        apply per_bottom. lia.
+    + destruct (t <? nv - 1 + (nu - 1)) eqn:C2.
+      * replace (t + 1 <? nv - 1) with false by lia.
+        destruct (t + 1 <? nv - 1 + (nu - 1)) eqn:C3.
+        -- replace (t + 1 - (nv - 1)) with (t - (nv - 1) + 1) by lia. apply per_right. lia.
+        -- replace (t + 1 <? 2 * (nv - 1) + (nu - 1)) with true by lia.
+           replace (gv nv (nu - 1) (nv - 1 - (t + 1 - (nv - 1) - (nu - 1)))) with (gv nv (t - (nv - 1) + 1) (nv - 1))
+             by (unfold gv; nia).
+           apply per_right. lia.
+      * replace (t + 1 <? nv - 1) with false by lia. replace (t + 1 <? nv - 1 + (nu - 1)) with false by lia.
+        destruct (t <? 2 * (nv - 1) + (nu - 1)) eqn:C3.
+        -- destruct (t + 1 <? 2 * (nv - 1) + (nu - 1)) eqn:C4.
+           ++ replace (nv - 1 - (t - (nv - 1) - (nu - 1))) with (nv - 1 - (t + 1 - (nv - 1) - (nu - 1)) + 1) by lia.
+              apply per_top. lia.
+           ++ replace (gv nv (nu - 1 - (t + 1 - 2 * (nv - 1) - (nu - 1))) 0) with (gv nv (nu - 1) 0) by (unfold gv; nia).
+              replace (nv - 1 - (t - (nv - 1) - (nu - 1))) with (0 + 1) by lia. apply per_top. lia.
+        -- replace (t + 1 <? 2 * (nv - 1) + (nu - 1)) with false by lia.
+           replace (nu - 1 - (t - 2 * (nv - 1) - (nu - 1))) with (nu - 1 - (t + 1 - 2 * (nv - 1) - (nu - 1)) + 1) by lia.
+           apply per_left. lia.
+  - (* the last edge returns to vertex 0 *)
+    replace (t <? nv - 1) with false by lia. replace (t <? nv - 1 + (nu - 1)) with false by lia.
+    replace (t <? 2 * (nv - 1) + (nu - 1)) with false by lia. replace (0 <? nv - 1) with true by lia.
+    replace (nu - 1 - (t - 2 * (nv - 1) - (nu - 1))) with (0 + 1) by lia. apply per_left. lia.
+Qed.
+
+Lemma perim_has_pos nu nv e : 2 <= nu -> 2 <= nv -> perim nu nv e ->
+  exists t, 0 <= t < gper nu nv /\ e = (gpos nu nv t, gpos nu nv ((t + 1) mod gper nu nv)).
+Proof.
+  intros Hu Hv H. unfold gper.
+  assert (P : forall t, 0 <= t < gper nu nv -> forall e', perim nu nv e' -> fst e' = gpos nu nv t ->
+              (forall e1 e2, perim nu nv e1 -> perim nu nv e2 -> fst e1 = fst e2 -> e1 = e2) ->
+              e' = (gpos nu nv t, gpos nu nv ((t + 1) mod gper nu nv))).
+  { intros t Ht e' He' Hf Huniq. apply Huniq; auto. apply gpos_edge; auto. }
+  assert (Huniq : forall e1 e2, perim nu nv e1 -> perim nu nv e2 -> fst e1 = fst e2 -> e1 = e2).
+  { intros e1 e2 H1 H2. destruct H1, H2; unfold gv; simpl; intros E; f_equal; try nia;
+      exfalso; apply rowmajor_inj in E; lia. }
+  destruct H as [s Hs|s Hs|s Hs|s Hs].
+  - exists s. split; [lia|]. apply P; auto; [unfold gper; lia | constructor; auto|].
+    unfold gpos. cbn [fst]. replace (s <? nv - 1) with true by lia. reflexivity.
+  - exists (nv - 1 + s). split; [lia|]. apply P; auto; [unfold gper; lia | constructor; auto|].
+    unfold gpos. cbn [fst]. replace (nv - 1 + s <? nv - 1) with false by lia.
+    replace (nv - 1 + s <? nv - 1 + (nu - 1)) with true by lia. f_equal; lia.
+  - exists (nv - 1 + (nu - 1) + (nv - 2 - s)). split; [lia|]. apply P; auto; [unfold gper; lia | constructor; auto|].
+    unfold gpos. cbn [fst].
+    replace (nv - 1 + (nu - 1) + (nv - 2 - s) <? nv - 1) with false by lia.
+    replace (nv - 1 + (nu - 1) + (nv - 2 - s) <? nv - 1 + (nu - 1)) with false by lia.
+    replace (nv - 1 + (nu - 1) + (nv - 2 - s) <? 2 * (nv - 1) + (nu - 1)) with true by lia. f_equal; lia.
+  - exists (2 * (nv - 1) + (nu - 1) + (nu - 2 - s)). split; [lia|]. apply P; auto; [unfold gper; lia | constructor; auto|].
+    unfold gpos. cbn [fst].
+    replace (2 * (nv - 1) + (nu - 1) + (nu - 2 - s) <? nv - 1) with false by lia.
+    replace (2 * (nv - 1) + (nu - 1) + (nu - 2 - s) <? nv - 1 + (nu - 1)) with false by lia.
+    replace (2 * (nv - 1) + (nu - 1) + (nu - 2 - s) <? 2 * (nv - 1) + (nu - 1)) with false by lia. f_equal; lia.
+Qed.
+
+Lemma gpos_inj nu nv s t : 2 <= nu -> 2 <= nv -> 0 <= s < gper nu nv -> 0 <= t < gper nu nv ->
+  gpos nu nv s = gpos nu nv t -> s = t.
+Proof.
+  intros Hu Hv Hs Ht. unfold gper in *. unfold gpos.
+  destruct (s <? nv - 1) eqn:A1; [|destruct (s <? nv - 1 + (nu - 1)) eqn:A2; [|destruct (s <? 2 * (nv - 1) + (nu - 1)) eqn:A3]];
+  (destruct (t <? nv - 1) eqn:B1; [|destruct (t <? nv - 1 + (nu - 1)) eqn:B2; [|destruct (t <? 2 * (nv - 1) + (nu - 1)) eqn:B3]]);
+  unfold gv; intros E; apply rowmajor_inj in E; lia.
+Qed.
+
+(* a perimeter edge belongs to exactly one cell and its reverse to none *)
+Lemma perim_is_border nu nv t u e : 2 <= nu -> 2 <= nv -> perim nu nv e ->
+  is_border (unit_grid_faces nu nv t u) e.
+Proof.
+  intros Hu Hv H. split.
+  - apply grid_dedge_In; try lia. destruct H as [s Hs|s Hs|s Hs|s Hs].
+    + exists 0, s. split; [lia|]. split; [lia|]. unfold gcell, gtri1, gtri2, gquad. destruct t; pick_by ltac:(reflexivity).
+    + exists s, (nv - 2). split; [lia|]. split; [lia|]. unfold gcell, gtri1, gtri2, gquad.
+      replace (nv - 1) with (nv - 2 + 1) by lia. destruct t; pick_by ltac:(reflexivity).
+    + exists (nu - 2), s. split; [lia|]. split; [lia|]. unfold gcell, gtri1, gtri2, gquad.
+      replace (nu - 1) with (nu - 2 + 1) by lia. destruct t; pick_by ltac:(reflexivity).
+    + exists s, 0. split; [lia|]. split; [lia|]. unfold gcell, gtri1, gtri2, gquad. destruct t; pick_by ltac:(reflexivity).
+  - intros Hin. apply grid_dedge_In in Hin as [i [j [Hi [Hj Hin]]]]; try lia.
+    unfold gcell, gtri1, gtri2, gquad, gv in Hin.
+    destruct H as [s Hs|s Hs|s Hs|s Hs]; unfold swap, gv in Hin; cbn [fst snd] in Hin;
+      destruct t; simpl in Hin; split_or Hin; injection Hin; intros; first [nia | rm_solve].
+Qed.
+
+(* every other half-edge has its twin in the neighbouring cell *)
+Lemma grid_edge_twin_or_perim nu nv t u e : 2 <= nu -> 2 <= nv ->
+  In e (dedges (unit_grid_faces nu nv t u)) ->
+  In (swap e) (dedges (unit_grid_faces nu nv t u)) \/ perim nu nv e.
+Proof.
+  intros Hu Hv H. apply grid_dedge_In in H as [i [j [Hi [Hj H]]]]; try lia.
+  assert (S0 : i = 0 \/ In (gv nv i (j + 1), gv nv i j) (dedges (unit_grid_faces nu nv t u))).
+  { destruct (Z.eq_dec i 0); [left; auto | right]. apply grid_dedge_In; try lia.
+    exists (i - 1), j. split; [lia|]. split; [lia|]. unfold gcell, gtri1, gtri2, gquad.
+    replace i with (i - 1 + 1) at 1 2 by lia. destruct t; pick_by ltac:(reflexivity). }
+  assert (S1 : j = nv - 2 \/ In (gv nv (i + 1) (j + 1), gv nv i (j + 1)) (dedges (unit_grid_faces nu nv t u))).
+  { destruct (Z.eq_dec j (nv - 2)); [left; auto | right]. apply grid_dedge_In; try lia.
+    exists i, (j + 1). split; [lia|]. split; [lia|]. unfold gcell, gtri1, gtri2, gquad.
+    destruct t; pick_by ltac:(reflexivity). }
+  assert (S2 : i = nu - 2 \/ In (gv nv (i + 1) j, gv nv (i + 1) (j + 1)) (dedges (unit_grid_faces nu nv t u))).
+  { destruct (Z.eq_dec i (nu - 2)); [left; auto | right]. apply grid_dedge_In; try lia.
+    exists (i + 1), j. split; [lia|]. split; [lia|]. unfold gcell, gtri1, gtri2, gquad.
+    destruct t; pick_by ltac:(reflexivity). }
+  assert (S3 : j = 0 \/ In (gv nv i j, gv nv (i + 1) j) (dedges (unit_grid_faces nu nv t u))).
+  { destruct (Z.eq_dec j 0); [left; auto | right]. apply grid_dedge_In; try lia.
+    exists i, (j - 1). split; [lia|]. split; [lia|]. unfold gcell, gtri1, gtri2, gquad.
+    replace j with (j - 1 + 1) at 1 2 by lia. destruct t; pick_by ltac:(reflexivity). }
+  assert (Dg : In (gv nv i (j + 1), gv nv (i + 1) j) (dedges (gcell nv true i j)) /\
+               In (gv nv (i + 1) j, gv nv i (j + 1)) (dedges (gcell nv true i j))).
+  { unfold gcell, gtri1, gtri2. split; pick_by ltac:(reflexivity). }
+  unfold gcell, gtri1, gtri2, gquad in H. destruct t; simpl in H; split_or H; subst e; unfold swap; cbn [fst snd].
+  - destruct S0 as [->|S0]; [right; apply per_bottom; lia | left; exact S0].
+  - left. apply grid_dedge_In; try lia. exists i, j. split; [lia|]. split; [lia|]. apply Dg.
+  - destruct S3 as [->|S3]; [right; apply per_left; lia | left; exact S3].
+  - destruct S1 as [->|S1]; [right | left; exact S1].
+    replace (nv - 2 + 1) with (nv - 1) by lia. apply per_right. lia.
+  - destruct S2 as [->|S2]; [right | left; exact S2].
+    replace (nu - 2 + 1) with (nu - 1) by lia. apply per_top. lia.
+  - left. apply grid_dedge_In; try lia. exists i, j. split; [lia|]. split; [lia|]. apply Dg.
+  - destruct S0 as [->|S0]; [right; apply per_bottom; lia | left; exact S0].
+  - destruct S1 as [->|S1]; [right | left; exact S1].
+    replace (nv - 2 + 1) with (nv - 1) by lia. apply per_right. lia.
+  - destruct S2 as [->|S2]; [right | left; exact S2].
+    replace (nu - 2 + 1) with (nu - 1) by lia. apply per_top. lia.
+  - destruct S3 as [->|S3]; [right; apply per_left; lia | left; exact S3].
+Qed.
+
+Definition grid_border_cycle (nu nv : Z) : list Z := map (gpos nu nv) (zrange (gper nu nv)).
+
+Lemma grid_border nu nv t u : 2 <= nu -> 2 <= nv ->
+  border_is_cycle (unit_grid_faces nu nv t u) (grid_border_cycle nu nv).
+Proof.
+  intros Hu Hv. apply border_cycle_by_positions.
+  - unfold gper; lia.
+  - intros a b Ha Hb E. apply (gpos_inj nu nv); auto.
+  - intros k Hk. apply perim_is_border; auto. apply gpos_edge; auto.
+  - intros e He. destruct (grid_edge_twin_or_perim nu nv t u e Hu Hv He) as [H|H]; [left; auto|right].
+    apply perim_has_pos; auto.
+Qed.
+
+(* ------------------------------------------------------------------ Euler characteristic 1 *)
+Lemma grid_euler nu nv t u : 2 <= nu -> 2 <= nv ->
+  euler (unit_grid_nverts nu nv t u) (unit_grid_faces nu nv t u) = 1.
+Proof.
+  intros Hu Hv. unfold euler.
+  pose proof (euler_formula _ (grid_oriented_manifold nu nv t u Hu Hv) (grid_faces_simple nu nv t u Hu Hv)) as HE.
+  rewrite (border_length _ _ (grid_oriented_manifold nu nv t u Hu Hv) (grid_border nu nv t u Hu Hv)) in HE.
+  2:{ unfold grid_border_cycle. rewrite map_length, zrange_length. unfold gper. lia. }
+  unfold grid_border_cycle in HE. rewrite zlen_map, zlen_zrange in HE by (unfold gper; lia).
+  rewrite (zlen_dedges_const _ (if t then 3 else 4)) in HE.
+  2:{ intros f Hf. apply grid_face_In in Hf as [i [j [_ [_ Hf]]]]; try lia.
+      unfold gcell in Hf. destruct t; simpl in Hf; split_or Hf; subst f; reflexivity. }
+  rewrite grid_nverts by lia. rewrite grid_nfaces in * by lia. unfold gper in HE.
+  destruct t; nia.
+Qed.
